@@ -14,6 +14,7 @@
   A source may be the output itself (same offset and stride, `SrcOK` left disjunct) or disjoint.
 -/
 import SpqProofs.Lemmas.VecOps
+import SpqProofs.Lemmas.VecBig
 namespace Spq.C08
 open Spq Heap
 variable {α : Type}
@@ -80,5 +81,435 @@ theorem add_no_fault (o : Ops α) (nn : Nat) (h : Heap α) (res rsz rsl a asz as
     · split
       · have := ha i (by omega); simp; omega
       · simp; omega
+
+/-! ### common shape of the statements -/
+
+/-- post-condition of a limb-vector operation writing `rsz` limbs of `nn` cells at `res`, stride
+    `rsl`: the heap keeps its size, output coefficient `(i, c)` holds `val i c`, every other cell
+    (stride padding, limbs past `rsz`, sources that are not the output) is unchanged. -/
+def VecPost (nn : Nat) (m m' : Array α) (res rsz rsl : Nat) (val : Nat → Nat → Option α) : Prop :=
+  m'.size = m.size ∧
+  (∀ i c, i < rsz → c < nn → m'[res + i * rsl + c]? = val i c) ∧
+  Frame nn res rsz rsl m m'
+
+/-! ### zero -/
+
+theorem zero_spec (o : Ops α) (nn : Nat) (h : Heap α) (res rsz rsl : Nat)
+    (hsl : nn ≤ rsl) (hres : InBounds nn h.mem.size res rsz rsl) :
+    VecPost nn h.mem (VecZnx.zero o nn h res rsz rsl).mem res rsz rsl (fun _ _ => some o.zero) := by
+  obtain ⟨e, _⟩ := zero_nf o nn h res rsz rsl
+  have g := oneSrc_generic o nn (fun _ x _ => x) (fun _ _ _ hx _ => hx) h.mem res rsz rsl res 0 rsl
+    hsl hres (Or.inl ⟨rfl, rfl⟩)
+  simp only at g
+  unfold VecPost
+  rw [e]
+  obtain ⟨g1, g2, g3⟩ := g
+  refine ⟨g1, ?_, g3⟩
+  intro i c hi hc
+  rw [g2 i c hi hc]
+  simp [oneK, Coeffs.zero, hc]
+
+theorem zero_no_fault (o : Ops α) (nn : Nat) (h : Heap α) (res rsz rsl : Nat)
+    (hres : InBounds nn h.mem.size res rsz rsl) :
+    (VecZnx.zero o nn h res rsz rsl).ok = h.ok := by
+  obtain ⟨_, e⟩ := zero_nf o nn h res rsz rsl
+  rw [e, oneB_true nn h.mem.size res rsz rsl res 0 rsl hres (fun i hi => by omega), Bool.and_true]
+
+/-! ### copy -/
+
+/-- value of output coefficient `(i, c)` of a copy: the source limb, or zero past `asz` -/
+def copyVal (o : Ops α) (m : Array α) (a asz asl i c : Nat) : α :=
+  if i < asz then m.getD (a + i * asl + c) o.zero else o.zero
+
+theorem copy_spec (o : Ops α) (nn : Nat) (h : Heap α) (res rsz rsl a asz asl : Nat)
+    (hsl : nn ≤ rsl) (hres : InBounds nn h.mem.size res rsz rsl)
+    (ha : SrcOK nn res rsz rsl a asz asl) :
+    VecPost nn h.mem (VecZnx.copy o nn h res rsz rsl a asz asl).mem res rsz rsl
+      (fun i c => some (copyVal o h.mem a asz asl i c)) := by
+  obtain ⟨e, _⟩ := copy_nf o nn h res rsz rsl a asz asl
+  have g := oneSrc_generic o nn (fun _ x _ => Coeffs.copy o nn x) (fun _ _ _ _ _ => by simp)
+    h.mem res rsz rsl a asz asl hsl hres ha
+  simp only at g
+  unfold VecPost
+  rw [e]
+  obtain ⟨g1, g2, g3⟩ := g
+  refine ⟨g1, ?_, g3⟩
+  intro i c hi hc
+  rw [g2 i c hi hc]
+  show _ = some (copyVal o h.mem a asz asl i c)
+  unfold oneK copyVal
+  split
+  · simp [Coeffs.copy, hc, readLimb, Nat.add_assoc]
+  · simp [Coeffs.zero, hc]
+
+theorem copy_no_fault (o : Ops α) (nn : Nat) (h : Heap α) (res rsz rsl a asz asl : Nat)
+    (hres : InBounds nn h.mem.size res rsz rsl) (ha : InBounds nn h.mem.size a (min asz rsz) asl) :
+    (VecZnx.copy o nn h res rsz rsl a asz asl).ok = h.ok := by
+  obtain ⟨_, e⟩ := copy_nf o nn h res rsz rsl a asz asl
+  rw [e, oneB_true nn h.mem.size res rsz rsl a asz asl hres ha, Bool.and_true]
+
+/-! ### negate -/
+
+def negVal (o : Ops α) (m : Array α) (a asz asl i c : Nat) : α :=
+  if i < asz then o.neg (m.getD (a + i * asl + c) o.zero) else o.zero
+
+theorem negate_spec (o : Ops α) (nn : Nat) (h : Heap α) (res rsz rsl a asz asl : Nat)
+    (hsl : nn ≤ rsl) (hres : InBounds nn h.mem.size res rsz rsl)
+    (ha : SrcOK nn res rsz rsl a asz asl) :
+    VecPost nn h.mem (VecZnx.negate o nn h res rsz rsl a asz asl).mem res rsz rsl
+      (fun i c => some (negVal o h.mem a asz asl i c)) := by
+  obtain ⟨e, _⟩ := negate_nf o nn h res rsz rsl a asz asl
+  have g := oneSrc_generic o nn (fun _ x _ => Coeffs.negate o nn x) (fun _ _ _ _ _ => by simp)
+    h.mem res rsz rsl a asz asl hsl hres ha
+  simp only at g
+  unfold VecPost
+  rw [e]
+  obtain ⟨g1, g2, g3⟩ := g
+  refine ⟨g1, ?_, g3⟩
+  intro i c hi hc
+  rw [g2 i c hi hc]
+  show _ = some (negVal o h.mem a asz asl i c)
+  unfold oneK negVal
+  split
+  · simp [Coeffs.negate, hc, readLimb, Nat.add_assoc]
+  · simp [Coeffs.zero, hc]
+
+theorem negate_no_fault (o : Ops α) (nn : Nat) (h : Heap α) (res rsz rsl a asz asl : Nat)
+    (hres : InBounds nn h.mem.size res rsz rsl) (ha : InBounds nn h.mem.size a (min asz rsz) asl) :
+    (VecZnx.negate o nn h res rsz rsl a asz asl).ok = h.ok := by
+  obtain ⟨_, e⟩ := negate_nf o nn h res rsz rsl a asz asl
+  rw [e, oneB_true nn h.mem.size res rsz rsl a asz asl hres ha, Bool.and_true]
+
+/-! ### sub -/
+
+/-- value of output coefficient `(i, c)` of a subtraction: `a - b`, `-b` past `asz`, `a` past `bsz` -/
+def subVal (o : Ops α) (m : Array α) (a asz asl b bsz bsl i c : Nat) : α :=
+  if i < asz ∧ i < bsz then o.sub (m.getD (a + i * asl + c) o.zero) (m.getD (b + i * bsl + c) o.zero)
+  else if i < bsz then o.neg (m.getD (b + i * bsl + c) o.zero)
+  else if i < asz then m.getD (a + i * asl + c) o.zero
+  else o.zero
+
+theorem sub_spec (o : Ops α) (nn : Nat) (h : Heap α) (res rsz rsl a asz asl b bsz bsl : Nat)
+    (hsl : nn ≤ rsl) (hres : InBounds nn h.mem.size res rsz rsl)
+    (ha : SrcOK nn res rsz rsl a asz asl) (hb : SrcOK nn res rsz rsl b bsz bsl) :
+    VecPost nn h.mem (VecZnx.sub o nn h res rsz rsl a asz asl b bsz bsl).mem res rsz rsl
+      (fun i c => some (subVal o h.mem a asz asl b bsz bsl i c)) := by
+  obtain ⟨e, _⟩ := sub_nf o nn h res rsz rsl a asz asl b bsz bsl
+  have g := vec_generic nn res rsz rsl a asz asl b bsz bsl o.zero (subK o nn asz bsz)
+    (size_subK o nn asz bsz)
+    (by intro i hi x x' y z
+        have c3 : ¬ i < asz := by omega
+        simp [subK, c3])
+    (by intro i hi x y y' z
+        have c3 : ¬ i < bsz := by omega
+        simp [subK, c3])
+    h.mem hsl hres ha hb
+  simp only at g
+  unfold VecPost
+  rw [e]
+  obtain ⟨g1, g2, g3⟩ := g
+  refine ⟨g1, ?_, g3⟩
+  intro i c hi hc
+  rw [g2 i c hi hc]
+  show _ = some (subVal o h.mem a asz asl b bsz bsl i c)
+  unfold subK subVal
+  split
+  · simp [Coeffs.sub, hc, readLimb, Nat.add_assoc]
+  · split
+    · simp [Coeffs.negate, hc, readLimb, Nat.add_assoc]
+    · split
+      · simp [Coeffs.copy, hc, readLimb, Nat.add_assoc]
+      · simp [Coeffs.zero, hc]
+
+theorem sub_no_fault (o : Ops α) (nn : Nat) (h : Heap α) (res rsz rsl a asz asl b bsz bsl : Nat)
+    (hres : InBounds nn h.mem.size res rsz rsl)
+    (ha : InBounds nn h.mem.size a (min asz rsz) asl) (hb : InBounds nn h.mem.size b (min bsz rsz) bsl) :
+    (VecZnx.sub o nn h res rsz rsl a asz asl b bsz bsl).ok = h.ok := by
+  obtain ⟨_, e⟩ := sub_nf o nn h res rsz rsl a asz asl b bsz bsl
+  rw [e, addB_true nn h.mem.size res rsz rsl a asz asl b bsz bsl hres ha hb, Bool.and_true]
+
+/-! ### rotate: per limb, the in-place kernel iff the two limb pointers are equal -/
+
+/-- output limb `i` of `vec_znx_rotate`: the kernel chosen by the pointer-equality test of the C
+    code applied to limb `i` of `a` (content before the call), or zero past `asz` -/
+def rotLimb (o : Ops α) (nn : Nat) (p : Int) (h : Heap α) (res rsl a asz asl i : Nat) : Array α :=
+  if i < asz then
+    if res + i * rsl = a + i * asl then Coeffs.rotateInplace o nn p (h.readLimb o.zero (a + i * asl) nn)
+    else Coeffs.rotate o nn p (h.readLimb o.zero (a + i * asl) nn)
+  else Coeffs.zero o nn
+
+theorem rotate_spec (o : Ops α) (nn : Nat) (p : Int) (h : Heap α) (res rsz rsl a asz asl : Nat)
+    (hsl : nn ≤ rsl) (hres : InBounds nn h.mem.size res rsz rsl)
+    (ha : SrcOK nn res rsz rsl a asz asl) :
+    VecPost nn h.mem (VecZnx.rotate o nn p h res rsz rsl a asz asl).mem res rsz rsl
+      (fun i c => (rotLimb o nn p h res rsl a asz asl i)[c]?) := by
+  obtain ⟨e, _⟩ := rotate_nf o nn p h res rsz rsl a asz asl
+  have g := oneSrc_generic o nn (rotKer o nn p res rsl a asl)
+    (fun i x z hx _ => size_rotKer o nn p res rsl a asl i x z hx)
+    h.mem res rsz rsl a asz asl hsl hres ha
+  simp only at g
+  unfold VecPost
+  rw [e]
+  obtain ⟨g1, g2, g3⟩ := g
+  refine ⟨g1, ?_, g3⟩
+  intro i c hi hc
+  rw [g2 i c hi hc]
+  rfl
+
+/-- past `asz` the output limb is zero; the limb always has `nn` coefficients -/
+theorem rotLimb_size (o : Ops α) (nn : Nat) (p : Int) (h : Heap α) (res rsl a asz asl i : Nat) :
+    (rotLimb o nn p h res rsl a asz asl i).size = nn := by
+  unfold rotLimb; repeat' split
+  all_goals simp
+
+theorem rotLimb_zero_ext (o : Ops α) (nn : Nat) (p : Int) (h : Heap α) (res rsl a asz asl i c : Nat)
+    (hi : asz ≤ i) (hc : c < nn) : (rotLimb o nn p h res rsl a asz asl i)[c]? = some o.zero := by
+  have : ¬ i < asz := by omega
+  simp [rotLimb, this, Coeffs.zero, hc]
+
+theorem rotate_no_fault (o : Ops α) (nn : Nat) (p : Int) (h : Heap α) (res rsz rsl a asz asl : Nat)
+    (hres : InBounds nn h.mem.size res rsz rsl) (ha : InBounds nn h.mem.size a (min asz rsz) asl) :
+    (VecZnx.rotate o nn p h res rsz rsl a asz asl).ok = h.ok := by
+  obtain ⟨_, e⟩ := rotate_nf o nn p h res rsz rsl a asz asl
+  rw [e, oneB_true nn h.mem.size res rsz rsl a asz asl hres ha, Bool.and_true]
+
+/-! ### automorphism -/
+
+/-- output limb `i` of `vec_znx_automorphism`: the in-place kernel if the limb pointers are equal,
+    else the out-of-place scatter — which starts from the prior content of output limb `i` (the C
+    kernel never initialises the output; for odd `p` every cell is overwritten, see C09) -/
+def autLimb (o : Ops α) (nn : Nat) (p : Int) (h : Heap α) (res rsl a asz asl i : Nat) : Array α :=
+  if i < asz then
+    if res + i * rsl = a + i * asl then Coeffs.automorphismInplace o nn p (h.readLimb o.zero (a + i * asl) nn)
+    else Coeffs.automorphism o nn p (h.readLimb o.zero (a + i * asl) nn) (h.readLimb o.zero (res + i * rsl) nn)
+  else Coeffs.zero o nn
+
+theorem automorphism_spec (o : Ops α) (nn : Nat) (p : Int) (h : Heap α) (res rsz rsl a asz asl : Nat)
+    (hsl : nn ≤ rsl) (hres : InBounds nn h.mem.size res rsz rsl)
+    (ha : SrcOK nn res rsz rsl a asz asl) :
+    VecPost nn h.mem (VecZnx.automorphism o nn p h res rsz rsl a asz asl).mem res rsz rsl
+      (fun i c => (autLimb o nn p h res rsl a asz asl i)[c]?) := by
+  obtain ⟨e, _⟩ := automorphism_nf o nn p h res rsz rsl a asz asl
+  have g := oneSrc_generic o nn (autKer o nn p res rsl a asl)
+    (fun i x z hx hz => size_autKer o nn p res rsl a asl i x z hx hz)
+    h.mem res rsz rsl a asz asl hsl hres ha
+  simp only at g
+  unfold VecPost
+  rw [e]
+  obtain ⟨g1, g2, g3⟩ := g
+  refine ⟨g1, ?_, g3⟩
+  intro i c hi hc
+  rw [g2 i c hi hc]
+  rfl
+
+theorem autLimb_size (o : Ops α) (nn : Nat) (p : Int) (h : Heap α) (res rsl a asz asl i : Nat) :
+    (autLimb o nn p h res rsl a asz asl i).size = nn := by
+  unfold autLimb; repeat' split
+  all_goals simp
+
+theorem autLimb_zero_ext (o : Ops α) (nn : Nat) (p : Int) (h : Heap α) (res rsl a asz asl i c : Nat)
+    (hi : asz ≤ i) (hc : c < nn) : (autLimb o nn p h res rsl a asz asl i)[c]? = some o.zero := by
+  have : ¬ i < asz := by omega
+  simp [autLimb, this, Coeffs.zero, hc]
+
+theorem automorphism_no_fault (o : Ops α) (nn : Nat) (p : Int) (h : Heap α) (res rsz rsl a asz asl : Nat)
+    (hres : InBounds nn h.mem.size res rsz rsl) (ha : InBounds nn h.mem.size a (min asz rsz) asl) :
+    (VecZnx.automorphism o nn p h res rsz rsl a asz asl).ok = h.ok := by
+  obtain ⟨_, e⟩ := automorphism_nf o nn p h res rsz rsl a asz asl
+  rw [e, oneB_true nn h.mem.size res rsz rsl a asz asl hres ha, Bool.and_true]
+
+/-! ### int64: "an input with fewer limbs is treated as zero", literally
+
+    `ext m a asz asl i c` is coefficient `c` of limb `i` of the zero-extension of the vector
+    `(a, asz, asl)`.  For wrapping int64 arithmetic and cells holding int64 values, the output of
+    every operation is the operation applied to the zero-extended inputs. -/
+
+/-- coefficient `(i, c)` of the zero-extended input vector -/
+def ext (m : Array Int) (a asz asl i c : Nat) : Int :=
+  if i < asz then m.getD (a + i * asl + c) 0 else 0
+
+/-- the value fits an int64 cell -/
+abbrev I64 (x : Int) : Prop := -9223372036854775808 ≤ x ∧ x < 9223372036854775808
+
+theorem copyVal_zero_ext (m : Array Int) (a asz asl i c : Nat) :
+    copyVal i64Ops m a asz asl i c = ext m a asz asl i c := rfl
+
+theorem negVal_zero_ext (m : Array Int) (a asz asl i c : Nat) :
+    negVal i64Ops m a asz asl i c = negS (ext m a asz asl i c) := by
+  unfold negVal ext
+  split
+  · rfl
+  · simp [i64Ops, negS, wrapS]
+
+theorem addVal_zero_ext (m : Array Int) (a asz asl b bsz bsl i c : Nat)
+    (ha : I64 (m.getD (a + i * asl + c) 0)) (hb : I64 (m.getD (b + i * bsl + c) 0)) :
+    addVal i64Ops m a asz asl b bsz bsl i c = addS (ext m a asz asl i c) (ext m b bsz bsl i c) := by
+  unfold I64 at ha hb
+  unfold addVal ext
+  simp only [show i64Ops.zero = (0 : Int) from rfl]
+  revert ha hb
+  generalize m.getD (a + i * asl + c) 0 = x
+  generalize m.getD (b + i * bsl + c) 0 = y
+  intro ha hb
+  by_cases h1 : i < asz <;> by_cases h2 : i < bsz <;> simp [h1, h2, i64Ops, addS, wrapS] <;> omega
+
+theorem subVal_zero_ext (m : Array Int) (a asz asl b bsz bsl i c : Nat)
+    (ha : I64 (m.getD (a + i * asl + c) 0)) :
+    subVal i64Ops m a asz asl b bsz bsl i c = subS (ext m a asz asl i c) (ext m b bsz bsl i c) := by
+  unfold I64 at ha
+  unfold subVal ext
+  simp only [show i64Ops.zero = (0 : Int) from rfl]
+  revert ha
+  generalize m.getD (a + i * asl + c) 0 = x
+  generalize m.getD (b + i * bsl + c) 0 = y
+  intro ha
+  by_cases h1 : i < asz <;> by_cases h2 : i < bsz <;> simp [h1, h2, i64Ops, subS, negS, wrapS] <;> omega
+
+/-- every cell of the heap holds an int64 value -/
+def HeapI64 (m : Array Int) : Prop := ∀ x, I64 (m.getD x 0)
+
+theorem add_zero_extend (nn : Nat) (h : Heap Int) (res rsz rsl a asz asl b bsz bsl : Nat)
+    (hsl : nn ≤ rsl) (hres : InBounds nn h.mem.size res rsz rsl)
+    (ha : SrcOK nn res rsz rsl a asz asl) (hb : SrcOK nn res rsz rsl b bsz bsl)
+    (h64 : HeapI64 h.mem) (i c : Nat) (hi : i < rsz) (hc : c < nn) :
+    (VecZnx.add i64Ops nn h res rsz rsl a asz asl b bsz bsl).mem[res + i * rsl + c]? =
+      some (addS (ext h.mem a asz asl i c) (ext h.mem b bsz bsl i c)) := by
+  rw [(add_spec i64Ops nn h res rsz rsl a asz asl b bsz bsl hsl hres ha hb).2.1 i c hi hc,
+    addVal_zero_ext _ _ _ _ _ _ _ _ _ (h64 _) (h64 _)]
+
+theorem sub_zero_extend (nn : Nat) (h : Heap Int) (res rsz rsl a asz asl b bsz bsl : Nat)
+    (hsl : nn ≤ rsl) (hres : InBounds nn h.mem.size res rsz rsl)
+    (ha : SrcOK nn res rsz rsl a asz asl) (hb : SrcOK nn res rsz rsl b bsz bsl)
+    (h64 : HeapI64 h.mem) (i c : Nat) (hi : i < rsz) (hc : c < nn) :
+    (VecZnx.sub i64Ops nn h res rsz rsl a asz asl b bsz bsl).mem[res + i * rsl + c]? =
+      some (subS (ext h.mem a asz asl i c) (ext h.mem b bsz bsl i c)) := by
+  have e := (sub_spec i64Ops nn h res rsz rsl a asz asl b bsz bsl hsl hres ha hb).2.1 i c hi hc
+  replace e : _ = some _ := e
+  rw [e, subVal_zero_ext _ _ _ _ _ _ _ _ _ (h64 _)]
+
+theorem negate_zero_extend (nn : Nat) (h : Heap Int) (res rsz rsl a asz asl : Nat)
+    (hsl : nn ≤ rsl) (hres : InBounds nn h.mem.size res rsz rsl)
+    (ha : SrcOK nn res rsz rsl a asz asl) (i c : Nat) (hi : i < rsz) (hc : c < nn) :
+    (VecZnx.negate i64Ops nn h res rsz rsl a asz asl).mem[res + i * rsl + c]? =
+      some (negS (ext h.mem a asz asl i c)) := by
+  have e := (negate_spec i64Ops nn h res rsz rsl a asz asl hsl hres ha).2.1 i c hi hc
+  replace e : _ = some _ := e
+  rw [e, negVal_zero_ext]
+
+theorem copy_zero_extend (nn : Nat) (h : Heap Int) (res rsz rsl a asz asl : Nat)
+    (hsl : nn ≤ rsl) (hres : InBounds nn h.mem.size res rsz rsl)
+    (ha : SrcOK nn res rsz rsl a asz asl) (i c : Nat) (hi : i < rsz) (hc : c < nn) :
+    (VecZnx.copy i64Ops nn h res rsz rsl a asz asl).mem[res + i * rsl + c]? =
+      some (ext h.mem a asz asl i c) := by
+  have e := (copy_spec i64Ops nn h res rsz rsl a asz asl hsl hres ha).2.1 i c hi hc
+  replace e : _ = some _ := e
+  rw [e, copyVal_zero_ext]
+
+/-! ### big-coefficient wrappers (vec_znx_big.c:101-201): the same functions, big operands having
+    stride `nn` — so the stride hypothesis `nn ≤ rsl` is always met by the wrapper itself -/
+
+theorem big_add_spec (o : Ops α) (nn : Nat) (h : Heap α) (res rsz a asz b bsz : Nat)
+    (hres : InBounds nn h.mem.size res rsz nn)
+    (ha : SrcOK nn res rsz nn a asz nn) (hb : SrcOK nn res rsz nn b bsz nn) :
+    VecPost nn h.mem (VecZnxBig.add o nn h res rsz a asz b bsz).mem res rsz nn
+      (fun i c => some (addVal o h.mem a asz nn b bsz nn i c)) :=
+  add_spec o nn h res rsz nn a asz nn b bsz nn (Nat.le_refl _) hres ha hb
+
+theorem big_add_small_spec (o : Ops α) (nn : Nat) (h : Heap α) (res rsz a asz b bsz bsl : Nat)
+    (hres : InBounds nn h.mem.size res rsz nn)
+    (ha : SrcOK nn res rsz nn a asz nn) (hb : SrcOK nn res rsz nn b bsz bsl) :
+    VecPost nn h.mem (VecZnxBig.addSmall o nn h res rsz a asz b bsz bsl).mem res rsz nn
+      (fun i c => some (addVal o h.mem a asz nn b bsz bsl i c)) :=
+  add_spec o nn h res rsz nn a asz nn b bsz bsl (Nat.le_refl _) hres ha hb
+
+theorem big_add_small2_spec (o : Ops α) (nn : Nat) (h : Heap α) (res rsz a asz asl b bsz bsl : Nat)
+    (hres : InBounds nn h.mem.size res rsz nn)
+    (ha : SrcOK nn res rsz nn a asz asl) (hb : SrcOK nn res rsz nn b bsz bsl) :
+    VecPost nn h.mem (VecZnxBig.addSmall2 o nn h res rsz a asz asl b bsz bsl).mem res rsz nn
+      (fun i c => some (addVal o h.mem a asz asl b bsz bsl i c)) :=
+  add_spec o nn h res rsz nn a asz asl b bsz bsl (Nat.le_refl _) hres ha hb
+
+theorem big_sub_spec (o : Ops α) (nn : Nat) (h : Heap α) (res rsz a asz b bsz : Nat)
+    (hres : InBounds nn h.mem.size res rsz nn)
+    (ha : SrcOK nn res rsz nn a asz nn) (hb : SrcOK nn res rsz nn b bsz nn) :
+    VecPost nn h.mem (VecZnxBig.sub o nn h res rsz a asz b bsz).mem res rsz nn
+      (fun i c => some (subVal o h.mem a asz nn b bsz nn i c)) :=
+  sub_spec o nn h res rsz nn a asz nn b bsz nn (Nat.le_refl _) hres ha hb
+
+theorem big_sub_small_b_spec (o : Ops α) (nn : Nat) (h : Heap α) (res rsz a asz b bsz bsl : Nat)
+    (hres : InBounds nn h.mem.size res rsz nn)
+    (ha : SrcOK nn res rsz nn a asz nn) (hb : SrcOK nn res rsz nn b bsz bsl) :
+    VecPost nn h.mem (VecZnxBig.subSmallB o nn h res rsz a asz b bsz bsl).mem res rsz nn
+      (fun i c => some (subVal o h.mem a asz nn b bsz bsl i c)) :=
+  sub_spec o nn h res rsz nn a asz nn b bsz bsl (Nat.le_refl _) hres ha hb
+
+theorem big_sub_small_a_spec (o : Ops α) (nn : Nat) (h : Heap α) (res rsz a asz asl b bsz : Nat)
+    (hres : InBounds nn h.mem.size res rsz nn)
+    (ha : SrcOK nn res rsz nn a asz asl) (hb : SrcOK nn res rsz nn b bsz nn) :
+    VecPost nn h.mem (VecZnxBig.subSmallA o nn h res rsz a asz asl b bsz).mem res rsz nn
+      (fun i c => some (subVal o h.mem a asz asl b bsz nn i c)) :=
+  sub_spec o nn h res rsz nn a asz asl b bsz nn (Nat.le_refl _) hres ha hb
+
+theorem big_sub_small2_spec (o : Ops α) (nn : Nat) (h : Heap α) (res rsz a asz asl b bsz bsl : Nat)
+    (hres : InBounds nn h.mem.size res rsz nn)
+    (ha : SrcOK nn res rsz nn a asz asl) (hb : SrcOK nn res rsz nn b bsz bsl) :
+    VecPost nn h.mem (VecZnxBig.subSmall2 o nn h res rsz a asz asl b bsz bsl).mem res rsz nn
+      (fun i c => some (subVal o h.mem a asz asl b bsz bsl i c)) :=
+  sub_spec o nn h res rsz nn a asz asl b bsz bsl (Nat.le_refl _) hres ha hb
+
+theorem big_rotate_spec (o : Ops α) (nn : Nat) (p : Int) (h : Heap α) (res rsz a asz : Nat)
+    (hres : InBounds nn h.mem.size res rsz nn) (ha : SrcOK nn res rsz nn a asz nn) :
+    VecPost nn h.mem (VecZnxBig.rotate o nn p h res rsz a asz).mem res rsz nn
+      (fun i c => (rotLimb o nn p h res nn a asz nn i)[c]?) :=
+  rotate_spec o nn p h res rsz nn a asz nn (Nat.le_refl _) hres ha
+
+theorem big_automorphism_spec (o : Ops α) (nn : Nat) (p : Int) (h : Heap α) (res rsz a asz : Nat)
+    (hres : InBounds nn h.mem.size res rsz nn) (ha : SrcOK nn res rsz nn a asz nn) :
+    VecPost nn h.mem (VecZnxBig.automorphism o nn p h res rsz a asz).mem res rsz nn
+      (fun i c => (autLimb o nn p h res nn a asz nn i)[c]?) :=
+  automorphism_spec o nn p h res rsz nn a asz nn (Nat.le_refl _) hres ha
+
+/-- the wrappers' bounds flag: same statement as the forwarded call, e.g. for the mixed sum -/
+theorem big_add_small_no_fault (o : Ops α) (nn : Nat) (h : Heap α) (res rsz a asz b bsz bsl : Nat)
+    (hres : InBounds nn h.mem.size res rsz nn)
+    (ha : InBounds nn h.mem.size a (min asz rsz) nn) (hb : InBounds nn h.mem.size b (min bsz rsz) bsl) :
+    (VecZnxBig.addSmall o nn h res rsz a asz b bsz bsl).ok = h.ok :=
+  add_no_fault o nn h res rsz nn a asz nn b bsz bsl hres ha hb
+
+/-! ### the hypotheses are satisfiable: `nn = 2`, three output limbs with stride 3 (one padding
+    cell each), `a` = the output itself with one limb, `b` disjoint with two limbs and stride 2 -/
+
+/-- cells: res/a limbs at 0,3,6 (padding 2,5,8), b limbs at 9,11 -/
+def exHeap : Heap Int := ⟨#[1, 2, 77, 3, 4, 77, 5, 6, 77, 10, 20, 30, 40], true⟩
+
+example := add_spec i64Ops 2 exHeap 0 3 3 0 1 3 9 2 2 (by omega)
+  (by intro i hi; simp [exHeap]; omega) (Or.inl ⟨rfl, rfl⟩) (Or.inr (by intro i j hi hj; omega))
+example := add_no_fault i64Ops 2 exHeap 0 3 3 0 1 3 9 2 2
+  (by intro i hi; simp [exHeap]; omega) (by intro i hi; simp [exHeap]; omega) (by intro i hi; simp [exHeap]; omega)
+/-- limb 0 = a+b, limb 1 = b (a has one limb), limb 2 = 0 (b has two); padding and b untouched -/
+example : (VecZnx.add i64Ops 2 exHeap 0 3 3 0 1 3 9 2 2).mem
+    = #[11, 22, 77, 30, 40, 77, 0, 0, 77, 10, 20, 30, 40] := by decide
+example : (VecZnx.sub i64Ops 2 exHeap 0 3 3 0 1 3 9 2 2).mem
+    = #[-9, -18, 77, -30, -40, 77, 0, 0, 77, 10, 20, 30, 40] := by decide
+example := sub_spec i64Ops 2 exHeap 0 3 3 0 1 3 9 2 2 (by omega)
+  (by intro i hi; simp [exHeap]; omega) (Or.inl ⟨rfl, rfl⟩) (Or.inr (by intro i j hi hj; omega))
+example := sub_zero_extend 2 exHeap 0 3 3 0 1 3 9 2 2 (by omega)
+  (by intro i hi; simp [exHeap]; omega) (Or.inl ⟨rfl, rfl⟩) (Or.inr (by intro i j hi hj; omega))
+  (by
+    intro x
+    by_cases hx : x < 13
+    · exact (by decide : ∀ x, x < 13 → I64 (exHeap.mem.getD x 0)) x hx
+    · simp [exHeap, I64, Array.getD, show ¬ x < 13 from hx])
+/-- rotation in place on an aliased vector with fewer limbs than the output, and out of place -/
+example := rotate_spec i64Ops 2 1 exHeap 0 3 3 0 1 3 (by omega)
+  (by intro i hi; simp [exHeap]; omega) (Or.inl ⟨rfl, rfl⟩)
+example := automorphism_spec i64Ops 2 3 exHeap 0 3 3 9 2 2 (by omega)
+  (by intro i hi; simp [exHeap]; omega) (Or.inr (by intro i j hi hj; omega))
+example : (VecZnx.rotate i64Ops 2 1 exHeap 0 3 3 0 1 3).mem
+    = #[-2, 1, 77, 0, 0, 77, 0, 0, 77, 10, 20, 30, 40] := by decide
+example : (VecZnx.automorphism i64Ops 2 3 exHeap 0 3 3 9 2 2).mem
+    = #[10, -20, 77, 30, -40, 77, 0, 0, 77, 10, 20, 30, 40] := by decide
+example := big_add_small_spec i64Ops 2 exHeap 0 3 0 1 9 2 2
+  (by intro i hi; simp [exHeap]; omega) (Or.inl ⟨rfl, rfl⟩) (Or.inr (by intro i j hi hj; omega))
 
 end Spq.C08
